@@ -8,7 +8,7 @@ from props import rollercommon as RC
 
 RULE = (
     "cases = corpus + seeded roller trees (size <= 6 quick / <= 8 thorough) over leaves (scalars, weighted / zero-count / unreduced "
-    "histograms, homogeneous pools) and value, pool, repeat, binary (+ - * lt eq ge ne), unary (neg abs pos), selection (index / "
+    "histograms, homogeneous pools) and value, pool, repeat, binary (+ - * // % ** & | ^ lt le eq ne ge gt; divisors never 0, exponents 0..3), unary (neg abs pos invert is_even is_odd), each through the operator / reflected-scalar / method / map spelling, scalar-with-RollOutcome operators inside umap (both sides), selection (index / "
     "slice grammar), filter (4 predicates) and substitution (re-roll a roller, REPLACE/APPEND, max_depth 0..2) nodes; EVERY random "
     "choice path of r.roll() is explored through a scripted dyce.rng.RNG, weighted by the weights the library passed; distinct = "
     "distinct tree; non-trivial = >= 2 choice paths and an inner node"
@@ -50,10 +50,22 @@ def _h_of(tree):
         l, r = _h_of(tree[2]), _h_of(tree[3])
         if l is None or r is None:
             return None
-        return l.map(lambda a, b: RC.BIN_INT[tree[1]](a, b), r)
+        try:
+            return l.map(lambda a, b: RC.BIN_INT[tree[1]](a, b), r)
+        except ZeroDivisionError:
+            return None  # H.map also applies the operator to zero-count outcomes; the roller never draws them
     if t == "un":
         h = _h_of(tree[2])
-        return None if h is None else h.umap(RC.UN[tree[1]])
+        return None if h is None else h.umap(RC.UN_INT[tree[1]])
+    if t == "unb":
+        h = _h_of(tree[4])
+        if h is None:
+            return None
+        f, k = RC.BIN_INT[tree[1]], tree[2]
+        try:
+            return h.umap((lambda a: f(a, k)) if tree[3] == 0 else (lambda a: f(k, a)))
+        except ZeroDivisionError:
+            return None
     if t == "sel":
         dice = []
         for s in tree[2]:
@@ -114,11 +126,11 @@ def classify(case, got):
     def kinds(t, acc):
         acc.add(t[0])
         for x in t[1:]:
-            if isinstance(x, list) and x and isinstance(x[0], str) and x[0] in ("val", "valh", "valp", "pool", "rep", "bin", "un", "filt", "sel", "subst", "substmap"):
+            if isinstance(x, list) and x and isinstance(x[0], str) and x[0] in RC.KINDS:
                 kinds(x, acc)
             elif isinstance(x, list):
                 for y in x:
-                    if isinstance(y, list) and y and isinstance(y[0], str) and y[0] in ("val", "valh", "valp", "pool", "rep", "bin", "un", "filt", "sel", "subst", "substmap"):
+                    if isinstance(y, list) and y and isinstance(y[0], str) and y[0] in RC.KINDS:
                         kinds(y, acc)
         return acc
 
@@ -155,6 +167,8 @@ def shrink(case):
             yield t[3]
         elif t[0] == "substmap":
             yield t[6]
+        elif t[0] == "unb":
+            yield t[4]
 
     for s in subtrees(t):
         yield dict(case, tree=s)
@@ -172,7 +186,7 @@ def generate(rnd, tier, scale):
         try:
             tree = RC.fix_selections(rnd, RC.rand_tree(rnd, size))
             d = RC.denote(tree)
-        except (IndexError, RecursionError, RC.TooBig):
+        except (IndexError, RecursionError, RC.TooBig, ZeroDivisionError):
             continue
         try:
             if sum(1 for _ in d) > 400 or RC.count_paths(tree) > (1500 if tier == "quick" else 2500):
